@@ -193,10 +193,11 @@ var structGensRedis = []structGen{
 	redisVariant(structGens[2], "hll-redis", func() Machine { return &hllRedis{} }),
 	redisVariant(structGens[1], "bloom-redis", func() Machine { return &bloomRedis{} }),
 	redisVariant(structGens[4], "topk-redis", func() Machine { return &topkRedis{} }),
+	redisVariant(structGens[3], "cuckoo-redis", func() Machine { return &cuckooRedis{} }),
 }
 
 // cuckoo-redis supports the core operations and re-attachment (C02, C13, C14, C09, C08, C16, C19)
-var cuckooRedisGen = redisVariant(structGens[3], "cuckoo-redis", func() Machine { return &cuckooRedis{} })
+var cuckooRedisGen = structGensRedis[4]
 
 // pairedQueries interleaves the same queries on instances a and b (a first).
 func pairedQueries(sg structGen, g *Gen, a, b int, pool [][]byte) []Tok {
@@ -337,17 +338,23 @@ func genC19(g *Gen, tier string) *Case {
 			ops = append(ops, sg.extra(g, inst+1, pool)...)
 			ops = append(ops, sg.queries(g, inst, pool)...)
 		case 1: // import under new keys into a second structure of the same kind
-			if k != 3 {
-				ops2, _ := sg.build(g, inst+1, tier)
-				e := 3000 + g.Intn(1000)
-				ops = append(ops, ops2...)
-				imp := TL(TNi(opImport), TNi(inst+1), TNi(e), TNi(1))
-				if k == 0 {
-					imp = TL(TNi(opImport), TNi(inst+1), TNi(e))
-				}
-				ops = append(ops, TL(TNi(opExport), TNi(inst), TNi(e)), imp)
+			ops2, _ := sg.build(g, inst+1, tier)
+			e := 3000 + g.Intn(1000)
+			ops = append(ops, ops2...)
+			imp := TL(TNi(opImport), TNi(inst+1), TNi(e), TNi(1))
+			if k == 0 {
+				imp = TL(TNi(opImport), TNi(inst+1), TNi(e))
+			}
+			ops = append(ops, TL(TNi(opExport), TNi(inst), TNi(e)), imp)
+			ops = append(ops, sg.queries(g, inst, pool)...)
+			ops = append(ops, sg.queries(g, inst+1, pool)...)
+			if g.Chance(0.6) {
+				// re-attach to the copy and update it through the new handle: the exporter must not move
+				ops = append(ops, TL(TNi(opAttach), TNi(inst+2), TNi(inst+1)))
+				ops = append(ops, sg.extra(g, inst+2, pool)...)
 				ops = append(ops, sg.queries(g, inst, pool)...)
 				ops = append(ops, sg.queries(g, inst+1, pool)...)
+				ops = append(ops, sg.queries(g, inst+2, pool)...)
 			}
 		}
 		for q := 0; q < 3; q++ {
@@ -421,6 +428,10 @@ func monitorPersist(sg structGen, prop string) Monitor {
 		for step, op := range ops {
 			a, o := op.L, obs[step]
 			code := a[0].I()
+			if v, bad := staleKeyViolation(name, op, o, step); bad {
+				out = append(out, v)
+				continue
+			}
 			if code >= 20 && isPanic(o) {
 				q := ""
 				if code == opWriteTo && (name == "topk-mem") {
@@ -509,6 +520,10 @@ func monitorPersist(sg structGen, prop string) Monitor {
 						}
 					}
 					out = append(out, MonViolation{name + "/Equals/reloaded-not-equal" + q, "the reloaded structure does not compare Equal to the original", step})
+				}
+				if prop == "C17" && !eq && twinHistories(ops[:step], a[1].String(), a[2].String()) {
+					out = append(out, MonViolation{name + "/Equals/twins-not-equal",
+						"two structures built with the same parameters and the same operations do not compare Equal", step})
 				}
 				if prop == "C17" && step+1 < len(ops) && ops[step+1].L[0].I() == opEquals && isOk(obs[step+1]) {
 					if (okPayload(obs[step+1]).U() != 0) != eq {
@@ -626,6 +641,55 @@ func monitorPersist(sg structGen, prop string) Monitor {
 		}
 		return out
 	}
+}
+
+// twinHistories: were instances i and j built by identical operation sequences (same
+// constructor arguments, same operations in the same order, nothing involving both)?
+func twinHistories(ops []Tok, i, j string) bool {
+	if i == j {
+		return false
+	}
+	var hi, hj []string
+	for _, op := range ops {
+		if len(op.L) < 2 || op.L[1].Kind != 0 {
+			continue
+		}
+		c := op.L[0].I()
+		if c == opEquals || c == opExport || c == opWriteTo {
+			continue
+		}
+		who := op.L[1].String()
+		if who != i && who != j {
+			continue
+		}
+		// operations with a second instance argument (merge, import, attach, mutate) break twinship
+		if c == opMutate || c == opImport || c == opReadFrom || c == opAttach || (len(op.L) == 3 && op.L[2].Kind == 0 && c == 3) {
+			return false
+		}
+		fields := []Tok{op.L[0]}
+		for _, f := range op.L[2:] {
+			// constructors of Redis-backed structures carry their (random) key names: not part of the history
+			if c == 0 && f.Kind == 1 {
+				continue
+			}
+			fields = append(fields, f)
+		}
+		rest := TL(fields...).String()
+		if who == i {
+			hi = append(hi, rest)
+		} else {
+			hj = append(hj, rest)
+		}
+	}
+	if len(hi) == 0 || len(hi) != len(hj) {
+		return false
+	}
+	for k := range hi {
+		if hi[k] != hj[k] {
+			return false
+		}
+	}
+	return true
 }
 
 func sawInvalid(obs []Tok) bool {
